@@ -79,6 +79,39 @@ theorem C19_disconnect_refused_leaves_no_trace (w : World) (d : Disconnect) (ps 
     simpa [World.live] using hlive
   simp [hl, hps, hbad, World.finishErr, World.finish, World.emit, World.errName]
 
+/-- **PUBLISH with an illegal property**: `publish` first finishes older outbound work
+(`flush_outbound`, which may write and may fail on its own); once that is done the request is refused
+with `InvalidRequest` before an identifier is allocated or a byte is encoded: session, transports,
+handles and quota are exactly what the flush left. (So "leaves no trace" holds of the *request*; the
+flush that precedes it is not part of it.) -/
+theorem C19_publish_refused_after_flush (fuel : Nat) (w : World) (r : PubReq)
+    (h : r.props.validFor .Publish = false) :
+    World.afterFlush (fuel + 1) w (.publishPre r) = w.finishErr "publish" .invalidRequest := by
+  simp [World.afterFlush, h]
+
+theorem C19_publish_refused_leaves_no_trace (fuel : Nat) (w : World) (r : PubReq)
+    (h : r.props.validFor .Publish = false) :
+    let w' := World.afterFlush (fuel + 1) w (.publishPre r)
+    w'.sess = w.sess ∧ w'.nets = w.nets ∧ w'.handles = w.handles ∧ w'.conn = w.conn ∧ w'.log = w.log ∧
+    w'.lastRes = some (.error .invalidRequest) := by
+  intro w'
+  have e : w' = w.finishErr "publish" .invalidRequest := C19_publish_refused_after_flush fuel w r h
+  rw [e]; exact ⟨rfl, rfl, rfl, rfl, rfl, rfl⟩
+
+/-- **QoS cap.** With auto-downgrade on, the QoS used is at most the broker's Maximum QoS, never above
+the requested one, and equal to the requested one when that is within the cap; with auto-downgrade
+off, or without a Maximum QoS, it is the requested one. -/
+theorem C19_qos_cap (m q : Nat) :
+    World.effectiveQos (some m) true q ≤ m ∧ World.effectiveQos (some m) true q ≤ q ∧
+    (q ≤ m → World.effectiveQos (some m) true q = q) ∧
+    World.effectiveQos (some m) false q = q ∧ (∀ d, World.effectiveQos none d q = q) := by
+  unfold World.effectiveQos
+  refine ⟨?_, ?_, ?_, ?_, fun _ => rfl⟩
+  · simp only [Bool.true_and, decide_eq_true_eq]; split <;> omega
+  · simp only [Bool.true_and, decide_eq_true_eq]; split <;> omega
+  · intro hq; simp only [Bool.true_and, decide_eq_true_eq]; rw [if_neg (by omega)]
+  · simp
+
 /-- Non-vacuity: a live world with a QoS 1 publish in flight satisfies the hypotheses. -/
 example : ∃ w : World, w.conn.isSome = true ∧ w.live = true ∧ w.fut = none ∧
     w.sess.data.outbound.retained ≠ [] :=
